@@ -59,6 +59,8 @@ pub fn render_key(k: &dyn KeyObj) -> KeyR {
   if let Some(t) = a.downcast_ref::<Box<T<2>>>() { return KeyR::Task(TaskKey { fam: 2, id: t.0 }); }
   if let Some(t) = a.downcast_ref::<Rc<T<3>>>() { return KeyR::Task(TaskKey { fam: 3, id: t.0 }); }
   if let Some(t) = a.downcast_ref::<Arc<T<4>>>() { return KeyR::Task(TaskKey { fam: 4, id: t.0 }); }
+  if let Some(t) = a.downcast_ref::<Box<T<0>>>() { return KeyR::Task(TaskKey { fam: 5, id: t.0 }); }
+  if let Some(t) = a.downcast_ref::<Rc<T<0>>>() { return KeyR::Task(TaskKey { fam: 6, id: t.0 }); }
   if let Some(r) = a.downcast_ref::<R<0>>() { return KeyR::Res(ResKey { fam: 0, id: r.0 }); }
   if let Some(r) = a.downcast_ref::<R<1>>() { return KeyR::Res(ResKey { fam: 1, id: r.0 }); }
   KeyR::Other(format!("{:?}", k))
@@ -108,7 +110,11 @@ impl Tracker for Rec {
   fn check_task_end(&mut self, t: &dyn KeyObj, c: &dyn ValueObj, s: &dyn ValueObj, i: Option<&dyn Debug>) { self.push(TK::CheckTaskEnd, render_key(t), render_val(c), render_val(s), ValR::None, inc_opt(i)); }
   fn check_resource_start(&mut self, r: &dyn KeyObj, c: &dyn ValueObj, s: &dyn ValueObj) { self.push(TK::CheckResourceStart, render_key(r), render_val(c), render_val(s), ValR::None, IncR::None); }
   fn check_resource_end(&mut self, r: &dyn KeyObj, c: &dyn ValueObj, s: &dyn ValueObj, i: Result<Option<&dyn Debug>, &dyn Error>) { self.push(TK::CheckResourceEnd, render_key(r), render_val(c), render_val(s), ValR::None, inc_res(i)); }
-  fn execute_start(&mut self, t: &dyn KeyObj) { self.push(TK::ExecuteStart, render_key(t), ValR::None, ValR::None, ValR::None, IncR::None); }
+  fn execute_start(&mut self, t: &dyn KeyObj) {
+    let key = render_key(t);
+    if self.global { if let KeyR::Task(k) = &key { let k = *k; with_sim(|s| s.next_exec_key = Some(k)); } }
+    self.push(TK::ExecuteStart, key, ValR::None, ValR::None, ValR::None, IncR::None);
+  }
   fn execute_end(&mut self, t: &dyn KeyObj, o: &dyn ValueObj) { self.push(TK::ExecuteEnd, render_key(t), ValR::None, ValR::None, render_val(o), IncR::None); }
   fn schedule_affected_by_task_start(&mut self, t: &dyn KeyObj) { self.push(TK::SchedByTaskStart, render_key(t), ValR::None, ValR::None, ValR::None, IncR::None); }
   fn check_task_require_task_start(&mut self, t: &dyn KeyObj, c: &dyn ValueObj, s: &dyn ValueObj) { self.push(TK::CheckReqTaskStart, render_key(t), render_val(c), render_val(s), ValR::None, IncR::None); }
